@@ -142,6 +142,12 @@ Section Inv.
     destruct (clean isspace (fix_text T (rev (cur q)))); [exact C|]. cbn [forallb]. rewrite K. exact C.
   Qed.
 
+  Lemma page_break_inv q : inv q -> inv (page_break isspace T q).
+  Proof.
+    intro I. destruct (flush_inv q I) as [A [B C]]. unfold page_break, inv. simpl. repeat split; try assumption.
+    unfold allP. simpl. rewrite (Hsmall NL) by (unfold NL; lia). exact A.
+  Qed.
+
   Lemma hexval_le c x : hexval decval c = Some x -> x <= 15.
   Proof.
     unfold hexval. destruct (decval c) as [d|].
@@ -193,7 +199,7 @@ Section Inv.
       apply emit_inv; [exact I|]. unfold allP; simpl. rewrite (Hsmall v (hex2_le _ _ _ E)). reflexivity. }
     destruct (isalpha nx).
     { intro H; inversion H; subst. clear H.
-      match goal with |- inv (if ?b then _ else _) => destruct b end; [apply flush_inv; exact I|].
+      match goal with |- inv (if ?b then _ else _) => destruct b end; [apply page_break_inv; exact I|].
       match goal with |- inv (match ?a with Some _ => _ | None => _ end) => destruct a as [chars|] eqn:E end; [|exact I].
       apply emit_inv; [exact I|]. apply assoc_In in E. rewrite forallb_forall in Hspecial. exact (Hspecial _ E). }
     intro H; inversion H; subst.
